@@ -19,7 +19,7 @@ CLAIMS = {
          "plus injected lookup-time faults on the real backends (closed DB, corrupted and truncated records, removed directory) "
          "compared with the model and with the property's own wording.",
          "Coq proof over the store model + fault-injection correspondence", "DESIGN.md §3 C09", ""),
- "C06": ("Coq theorem C06_main: for every document of the profile (any number of entries, any leaf contents, optional fields in "
+ "C06": ("Coq theorems C06_pem_roundtrip (for every byte string and LF/CRLF line ends the PEM path returns exactly that byte string) and C06_pem, C06_reject_unknown_version (every version byte >= 2 is rejected before anything reaches the consumer), and C06_main: for every document of the profile (any number of entries, any leaf contents, optional fields in "
          "every combination), every library oracle and EVERY pair of chunk schedules, the reader model run on the DER encoding emits "
          "exactly the reference events and hashes exactly the DER tbsCertList (induction over the entry list; C06_sched, C06_digest, "
          "C06_reject_critical are corollaries); the model is tied to the real reader by ~330 generated CRLs (all algorithms, widths, "
@@ -119,7 +119,7 @@ CLAIMS = {
          "20 000 and 200 000 (thorough: 2 000 000) entries from file and HTTP, DER and PEM.",
          "Coq proof of a constant allocation bound + heap-growth measurement in a child process", "DESIGN.md §3 C17",
          "the Go heap, garbage collector, LevelDB memtables and the HTTP client are runtime: the model shows only that the reader asks for bounded memory and retains nothing; the end-to-end bound is measured, not proved."),
- "C13": ("Coq: a lockset checker for a lock/access skeleton language with a machine-checked soundness theorem (C13_checker_sound: for any "
+ "C13": ("Coq: C13_deadlock_free (mechanised wait-for argument: in every reachable state of finitely many threads some unfinished thread can step) and a lockset checker for a lock/access skeleton language with a machine-checked soundness theorem (C13_checker_sound: for any "
          "number of threads and every interleaving under reader/writer lock semantics an accepted program has no data race, never re-acquires "
          "a held lock, takes locks in one global order, and ends holding nothing), applied to the skeleton that tools/lockskel regenerates from "
          "crlrepository.go, crlrevocationchecker.go, ocsprevocationchecker.go and multischemescrlloader.go on every run "
